@@ -96,7 +96,9 @@ def check_one(case, ctx, deep):
     nt = nontrivial_table(ref, maps)
     classes = lib.table_classes(case) + [lib.size_bucket(len(ref.concepts))]
     ctx.case(plain, nt, classes)
-    for _ in range(2 if deep else 1):
+    for rep_ in range(2 if deep else 1):
+        if rep_:
+            lib.interfere(case)   # other contexts created and queried in between (DESIGN.md 10.2)
         context = ctx.call('Context()', plain, lib.context_of, case)
         lattice = ctx.call('context.lattice', plain, lambda: context.lattice)
         ctx.check(len(lattice) == len(ref.concepts), 'concept-set', plain, 'lattice is not the concept set (see C03)')
